@@ -17,7 +17,7 @@ TECHNIQUE = "property-based testing: reference sum over uncovered cells (math.fs
 RULE = ("Hypothesis-generated nested 3D plotfiles with even blocking factor (2, 4, 8), mixed box extents (weighted "
         "towards meshes whose smallest extent is not the alignment, e.g. 16 and 24, or boxes offset by half the "
         "smallest box), partial refinement, anisotropic cells, 1-4 levels, any binary layout x field (mixed-sign "
-        "random, polynomial x*y+z, constant 1) x level limit passed three ways (reader limit, volume_integral "
+        "random, polynomial x*y+z, constant 1; in two thirds of the cases NaN / +-inf / 1e300 stored in the cells lying under a finer selected level) x level limit passed three ways (reader limit, volume_integral "
         "argument, the pestle CLI with -l) x volFrac on/off. Oracle: sum over cells not covered by a finer selected "
         "level of value*dV(*volFrac), rel. tol 1e-10 of sum|v|dV; constant 1 integrates to the domain volume; the same "
         "data in another binary layout gives the same integral. Non-trivial = >= 2 levels with partial refinement "
@@ -36,6 +36,13 @@ def _payload_pestle(plot, l, lo, hi):
     cols = dict(q=r.uniform(-1.0, 1.0, size=shp) / vol,
                 poly=(c[0] * c[1] + c[2]) / (vol * max(1.0, max(abs(x) for x in plot.geo_lo + plot.geo_hi)) ** 2),
                 one=np.ones(shp), volFrac=r.uniform(0.0, 1.0, size=shp))
+    junk = plot.payload.get("junk")
+    if junk is not None and l < plot.payload.get("junk_below", 0):
+        # whatever a covered cell holds is irrelevant to the statement: cells under the next (selected) level hold junk
+        cov = plot.covered_mask(l, l + 1)[tuple(slice(lo[d], hi[d] + 1) for d in range(3))]
+        val = {"nan": np.nan, "inf": np.inf, "-inf": -np.inf, "huge": 1e300}[junk]
+        for f in ("q", "poly", "one") + (("volFrac",) if plot.payload.get("junk_vf") else ()):
+            cols[f] = np.where(cov, val, cols[f])
     return np.stack([cols[f] for f in plot.fields], axis=-1)
 
 
@@ -55,7 +62,12 @@ def cases(draw, tier="quick"):
     spec["fields"] = [f for f in FIELDS if f != "volFrac" or has_vf]
     spec["payload"] = dict(kind="pestle", seed=draw(st.integers(0, 9999)))
     nlev = m["nlev"]
-    return dict(spec=spec, field=draw(st.integers(0, 2)), limit=draw(st.one_of(st.none(), st.integers(0, nlev - 1))),
+    limit = draw(st.one_of(st.none(), st.integers(0, nlev - 1)))
+    junk = [None, None, "nan", "inf", "-inf", "huge"][draw(st.integers(0, 2 ** 16)) % 6]
+    if junk is not None:
+        # non-finite / huge values in the cells of levels < L that lie under the next level (all selected, so never counted)
+        spec["payload"].update(junk=junk, junk_below=nlev - 1 if limit is None else limit, junk_vf=draw(st.booleans()))
+    return dict(spec=spec, field=draw(st.integers(0, 2)), limit=limit,
                 how=draw(st.sampled_from(["reader", "argument", "cli", "argument"])), volfrac=draw(st.booleans()),
                 layout2=draw(plotgen.layouts()))
 
@@ -119,6 +131,8 @@ def check_case(case, ctx):
     limit = case["limit"]
     L = plot.nlev - 1 if limit is None else limit
     ctx.label(*labs, "how:" + case["how"], f"bf{case['spec']['mesh']['bf']}")
+    if case["spec"]["payload"].get("junk") and L >= 1:
+        ctx.label("junk-in-covered-cells:" + case["spec"]["payload"]["junk"])
     ctx.nontrivial(plot.nlev >= 2 and "partial-refinement" in labs and ("mixed-extents" in labs or L < plot.nlev - 1))
     name = plot.fields[case["field"]]
     has_vf = "volFrac" in plot.fields
